@@ -62,6 +62,8 @@ type jline struct {
 	Now   int64    `json:"now,omitempty"`
 	Sweep []string `json:"sweep,omitempty"` // per path: sha:len or "absent"
 	End   bool     `json:"end,omitempty"`
+	McSha string   `json:"mc_sha,omitempty"`
+	McLen int      `json:"mc_len,omitempty"`
 }
 
 var journal *os.File
@@ -204,9 +206,18 @@ func runScript(sc *script, srcs [][]byte) {
 					}
 				}()
 				setMapSeed(o.Ent)
-				frontend.Exec(tree, sc.Paths[o.D])
+				_, p2 := frontend.Exec(tree, sc.Paths[o.D])
 				j.Draws = mapDraws()
 				j.Out = "ok"
+				if o.Kind == "mc" && p2 != nil && p2.Client != nil {
+					// a second opinion on "the assembled bytes": the machine code as the code generator
+					// returns it in memory, independent of the file writer (C19 image reference, flat format)
+					if mc, err := p2.Client.Exec(); err == nil {
+						s := sha256.Sum256(mc)
+						j.McSha, j.McLen = hex.EncodeToString(s[:]), len(mc)
+						os.WriteFile(sc.Paths[o.D]+".mc", mc, 0644)
+					}
+				}
 			}()
 			if sha, n, ok := hashFile(sc.Paths[o.D]); ok {
 				j.Sha, j.Len = sha, n
